@@ -100,7 +100,7 @@ class Run:
             if self.matchers().explains(f, rec):
                 self.known_hits[f["id"]] = self.known_hits.get(f["id"], 0) + 1
                 return False
-        k = key or sha([clause, case])
+        k = sha(key) if key else sha([clause, case])
         if any(v["key"] == k for v in self.violations):
             return True
         path = os.path.join(self.replay_dir, f"{k}.json")
